@@ -84,6 +84,7 @@ type Case struct {
 type shadowItem struct {
 	kind, name string
 	repl       int
+	label      string // value of the app label ("" = a)
 }
 type shadowCase struct{ items []shadowItem }
 
@@ -303,6 +304,9 @@ func evalShadow(cs Case, x *fw.Rec) {
 	owner := map[string]int{} // pod name -> index of the workload owning it last (document order)
 	for i, it := range cs.Shadow.items {
 		wl := wm.Workload{NS: "ns1", Name: it.name, Labels: map[string]string{"app": "a"}}
+		if it.label != "" {
+			wl.Labels = map[string]string{"app": it.label}
+		}
 		if it.kind == "PodBare" {
 			infos = append(infos, wm.InfoPod("ns1", it.name, "", wl.Labels, nil))
 		} else {
@@ -419,16 +423,19 @@ func Run(r *fw.Run) {
 			return Case{Base: w, WI: wi, Kind: k, Repl: rp, Order: wi % 4, Borrowed: true, Desc: fmt.Sprintf("%s workload=%s as %s replicas=%d", sc.name, w.WLs[wi].PeerString(), k, rp)}
 		}, eval)
 	}
-	items := []shadowItem{{"Deployment", "a", 1}, {"StatefulSet", "a", 1}, {"PodBare", "a-1", 1}, {"Deployment", "a-1", 1}, {"Pods", "a", 1}, {"Job", "a", 1}, {"CronJob", "a", 1}, {"DaemonSet", "a", 1}, {"PodBare", "a-pod0", 1}, {"ReplicaSet", "a", 1}}
+	items := []shadowItem{{kind: "Deployment", name: "a", repl: 1}, {kind: "StatefulSet", name: "a", repl: 1}, {kind: "PodBare", name: "a-1", repl: 1}, {kind: "Deployment", name: "a-1", repl: 1}, {kind: "Pods", name: "a", repl: 1}, {kind: "Job", name: "a", repl: 1}, {kind: "CronJob", name: "a", repl: 1}, {kind: "DaemonSet", name: "a", repl: 1}, {kind: "PodBare", name: "a-pod0", repl: 1}, {kind: "ReplicaSet", name: "a", repl: 1}}
 	fw.Explore(r, "distinct-workloads", fw.Full, func(c *fw.Ctx) Case {
 		i := c.Choose(len(items), "first")
 		j := c.Choose(len(items), "second")
 		ri, rj := 1+c.Choose(2, "replicas of first"), 1+c.Choose(2, "replicas of second")
 		a, b := items[i], items[j]
 		a.repl, b.repl = ri, rj
+		if c.Choose(2, "pod labels of the second: the same | different") == 1 {
+			b.label = "b"
+		}
 		if peerOf(a) == peerOf(b) {
 			c.Skip() // the same workload twice is not "distinct workloads"
 		}
-		return Case{Shadow: &shadowCase{[]shadowItem{a, b}}, Desc: fmt.Sprintf("distinct workloads %s(replicas %d) then %s(replicas %d)", peerOf(a), ri, peerOf(b), rj)}
+		return Case{Shadow: &shadowCase{[]shadowItem{a, b}}, Desc: fmt.Sprintf("distinct workloads %s(replicas %d) then %s(replicas %d, app=%s)", peerOf(a), ri, peerOf(b), rj, map[bool]string{true: "a", false: b.label}[b.label == ""])}
 	}, eval)
 }
